@@ -139,6 +139,24 @@ fn check_numeral(text: &str, base: u32, exact: bool, v: &Q) -> Result<Vec<Readin
 }
 
 pub fn check(env: &Env, case: &Case, st: &mut Stats) -> CaseResult {
+    if std::env::var("VERIF_PROFILE").is_err() {
+        return check_inner(env, case, st);
+    }
+    let t = std::time::Instant::now();
+    let r = check_inner(env, case, st);
+    let us = t.elapsed().as_micros() as u64;
+    let m = match case.mode {
+        Mode::Digits(n) if n > 60 => "DigitsBig".to_string(),
+        Mode::Digits(_) => "Digits".to_string(),
+        m => format!("{:?}", m),
+    };
+    let size = if case.p.len() + case.q.len() > 200 { "big" } else { "small" };
+    st.class_n(&format!("us_{}_{}_{}", m, size, if case.via_query { "q" } else { "d" }), us);
+    st.class(&format!("n_{}_{}_{}", m, size, if case.via_query { "q" } else { "d" }));
+    r
+}
+
+fn check_inner(env: &Env, case: &Case, st: &mut Stats) -> CaseResult {
     let p = parse_dec(&case.p).ok_or("bad p")?;
     let q = parse_dec(&case.q).ok_or("bad q")?;
     if q.is_zero() {
@@ -273,9 +291,11 @@ pub fn check(env: &Env, case: &Case, st: &mut Stats) -> CaseResult {
 
 fn big_random(max_limbs: usize) -> impl Strategy<Value = BigInt> {
     prop_oneof![
-        3 => (1u64..2000).prop_map(BigInt::from),
-        2 => any::<u64>().prop_map(|x| BigInt::from(x | 1)),
-        2 => proptest::collection::vec(any::<u32>(), 1..=max_limbs.min(6))
+        60 => (1u64..2000).prop_map(BigInt::from),
+        40 => any::<u64>().prop_map(|x| BigInt::from(x | 1)),
+        40 => proptest::collection::vec(any::<u32>(), 1..=max_limbs.min(6))
+            .prop_map(|l| BigInt::from(num_bigint::BigUint::new(l)) + BigInt::one()),
+        3 => proptest::collection::vec(any::<u32>(), 1..=max_limbs.min(24))
             .prop_map(|l| BigInt::from(num_bigint::BigUint::new(l)) + BigInt::one()),
         1 => proptest::collection::vec(any::<u32>(), 1..=max_limbs)
             .prop_map(|l| BigInt::from(num_bigint::BigUint::new(l)) + BigInt::one()),
